@@ -36,6 +36,9 @@ func ParseTimestamp(s string) (Timestamp, error) {
 	if err != nil {
 		return 0, fmt.Errorf("invalid timestamp: %s", err)
 	}
+	if sec := t.Unix(); sec < 0 || sec > math.MaxUint32 {
+		return 0, fmt.Errorf("invalid timestamp: %s is out of range", s)
+	}
 	return TimestampFromStdTime(t), nil
 }
 
